@@ -177,9 +177,26 @@ impl StreamId {
             }
         }
         
-        // Same millisecond, increment sequence
-        let seq = last_seq.fetch_add(1, Ordering::Relaxed);
-        StreamId::new(prev_millis, seq + 1)
+        // Same millisecond: next sequence number. When the sequence space of this millisecond is
+        // exhausted, carry into the next millisecond. No arithmetic here can overflow (the old
+        // `seq + 1` wrapped to 0 in release builds, yielding an ID below the top, and panicked in
+        // debug builds). At the very top of the ID space (2^64-1 - 2^64-1) no greater ID exists:
+        // StorageEngine::xadd refuses XADD * before getting here; should this be reached anyway
+        // the ID saturates at the top instead of wrapping below it. Callers hold the data mutex.
+        match last_seq.load(Ordering::Relaxed).checked_add(1) {
+            Some(next_seq) => {
+                last_seq.store(next_seq, Ordering::Relaxed);
+                StreamId::new(prev_millis, next_seq)
+            }
+            None => match prev_millis.checked_add(1) {
+                Some(next_millis) => {
+                    last_millis.store(next_millis, Ordering::Relaxed);
+                    last_seq.store(0, Ordering::Relaxed);
+                    StreamId::new(next_millis, 0)
+                }
+                None => StreamId::new(prev_millis, u64::MAX),
+            },
+        }
     }
     
     pub fn min() -> Self {
@@ -368,6 +385,11 @@ impl Stream {
     pub fn add_with_id(&self, id: StreamId, fields: HashMap<Vec<u8>, Vec<u8>>) -> Result<(), &'static str> {
         let mut data = self.data.lock().unwrap();
         data.add_with_id(id, fields, self)
+    }
+    
+    /// The greatest ID ever added (0-0 for a stream that never had an entry)
+    pub fn last_id(&self) -> StreamId {
+        self.data.lock().unwrap().last_id
     }
     
     /// Get length (lock-free atomic read - major performance win)
